@@ -1,4 +1,5 @@
 import KcpVerif.Model.Kcp
+import KcpVerif.Lemmas.KcpFlush
 /-! C02 — eventual delivery: a healed network always drains the backlog. -/
 namespace KcpVerif.Props
 open KcpVerif KcpVerif.Gen KcpVerif.Kcp
@@ -15,4 +16,131 @@ theorem C02_parseUna_suffix (k : Kcp) (una : U32) :
   | nil => simp [unaCount]
   | cons s rest ih => unfold unaCount; split <;> simp <;> omega
 
+/-! ### `fastack_cleared`: branch analysis of phase 5 (`xmitOne`) for a segment sent before
+
+`cause`, `segAfter`, `emit` (Lemmas/KcpXmit.lean) are the decision cascade, the segment left in
+`snd_buf` and the write into the output buffer; `xmitOne_eq` proves `xmitOne` equal to them. -/
+
+/-- For an un-acked segment that was sent before (`xmit > 0`) and whose timer is due, for EVERY
+fast-resend setting, `fastack` value and admission count: the segment is sent (by the fast, early or
+timeout branch; `f := emit …`, `xmit` incremented); if it is the timeout branch, `fastack` is reset
+to 0 and the loss is counted; and the sentinel `fastack = 0xFFFFFFFF` always ends in the timeout
+branch — it never suppresses the retransmission. -/
+theorem C02_fastack_cleared (now resent : U32) (wnd : BitVec 16) (una : U32) (newSegs : Nat) (st : XmitSt) (s : Seg)
+    (ha : s.acked = false) (hx : s.xmit ≠ 0) (hd : itimediff now s.resendts ≥ 0) :
+    ∃ s', (xmitOne now resent wnd una newSegs st s).done = st.done ++ [s'] ∧
+      (xmitOne now resent wnd una newSegs st s).f = emit st.f s' ∧
+      s'.xmit = s.xmit + 1 ∧ s'.ts = now ∧ s'.sn = s.sn ∧ s'.data = s.data ∧ s'.acked = false ∧
+      (cause now resent newSegs s = .fast ∨ cause now resent newSegs s = .early ∨ cause now resent newSegs s = .timeout) ∧
+      (cause now resent newSegs s = .timeout →
+        s'.fastack = 0 ∧ (xmitOne now resent wnd una newSegs st s).lost = st.lost + 1) ∧
+      (s.fastack = 0xFFFFFFFF#32 → cause now resent newSegs s = .timeout) := by
+  have hc := cause_due now resent newSegs s hx hd
+  have hne : cause now resent newSegs s ≠ .none := by
+    rcases hc with h | h | h <;> rw [h] <;> exact fun c => by cases c
+  refine ⟨segAfter now resent wnd una newSegs st.f.k.rx_rto st.f.k.nodelay s, xmitOne_done _ _ _ _ _ _ _, ?_, ?_, ?_,
+    (segAfter_id _ _ _ _ _ _ _ _).1, (segAfter_id _ _ _ _ _ _ _ _).2.1, ?_, hc, ?_, fun hf => cause_sentinel _ _ _ _ hx hf hd⟩
+  · rw [xmitOne_f, if_neg (fun h => h.elim (by simp [ha]) hne)]
+  · rw [segAfter_sent _ _ _ _ _ _ _ _ ha hne]
+    rcases hc with h | h | h <;> rw [h] <;> rfl
+  · rw [segAfter_sent _ _ _ _ _ _ _ _ ha hne]; rfl
+  · rw [segAfter_acked, ha]
+  · intro h
+    constructor
+    · rw [segAfter_sent _ _ _ _ _ _ _ _ ha hne, h]; rfl
+    · rw [xmitOne_eq, if_neg (by simp [ha])]
+      simp only [h, ↓reduceIte]
+
+/-- non-vacuity: a segment carrying the sentinel whose timer is due -/
+example : ∃ s : Seg, s.acked = false ∧ s.xmit ≠ 0 ∧ itimediff 1000 s.resendts ≥ 0 ∧ s.fastack = 0xFFFFFFFF#32 :=
+  ⟨{ xmit := 2, resendts := 900, fastack := 0xFFFFFFFF#32 }, by decide⟩
+
+/-! ### `retx_armed` -/
+
+/-- A full flush at `now`, any state.  Let `buf` be the send buffer after admission (phase 4; it
+extends the old `snd_buf`).
+1. the new `snd_buf` is `buf` with `segAfter` applied to every element (same order, same `sn`s);
+2. every un-acked segment sent before whose timer is due takes a sending branch — whatever the
+   windows (`rmt_wnd`, `cwnd`, `snd_wnd`) are — and, if the flush does not panic, its bytes
+   (header with the new `ts`/`wnd`/`una`, then data) are in the output;
+3. after the flush no un-acked segment is due: `itimediff now s'.resendts < 0`, and the ones
+   transmitted by this flush have `itimediff s'.resendts now = s'.rto` exactly, provided
+   `0 < s'.rto < 2^31` (explicit side condition: beyond it the signed comparison is meaningless);
+4. the returned interval is at most `interval` and at most every positive `resendts − now`. -/
+theorem C02_retx_armed (k : Kcp) (now : U32) :
+    (∃ t, (flAd k now).buf = k.snd_buf ++ t) ∧
+    (flush k true now).k.snd_buf =
+      (flAd k now).buf.map (segAfter now (resentOf k) (wndUnused k) k.rcv_nxt (flAd k now).count k.rx_rto k.nodelay) ∧
+    (∀ s ∈ (flAd k now).buf, s.acked = false → s.xmit ≠ 0 → itimediff now s.resendts ≥ 0 →
+      cause now (resentOf k) (flAd k now).count s ≠ .none ∧
+      ((flush k true now).panic = false → ∃ pre post, (flush k true now).outs.flatten =
+        pre ++ segBytes (segAfter now (resentOf k) (wndUnused k) k.rcv_nxt (flAd k now).count k.rx_rto k.nodelay s) ++ post)) ∧
+    (∀ s' ∈ (flush k true now).k.snd_buf, s'.acked = false → 0 < s'.rto.toNat → s'.rto.toNat < 2 ^ 31 →
+      itimediff now s'.resendts < 0 ∧
+      (s'.ts = now ∧ s'.xmit ≠ 0 → s'.resendts = now + s'.rto → itimediff s'.resendts now = s'.rto.toNat)) ∧
+    (flush k true now).interval ≤ k.interval ∧
+    (∀ s' ∈ (flush k true now).k.snd_buf, s'.acked = false → itimediff s'.resendts now > 0 →
+      ((flush k true now).interval.toNat : Int) ≤ itimediff s'.resendts now) := by
+  obtain ⟨pw, tp, h4⟩ := flF4_frame k now
+  have hX := flX_full k now
+  have hres : resentOf (flF4 k now).k = resentOf k := by rw [h4]; rfl
+  have hrto : (flF4 k now).k.rx_rto = k.rx_rto := by rw [h4]
+  have hnd : (flF4 k now).k.nodelay = k.nodelay := by rw [h4]
+  have hbuf : (flF4 k now).k.snd_buf = (flAd k now).buf := by rw [h4]
+  have hint : (flF4 k now).k.interval = k.interval := by rw [h4]
+  have hdone := hX.done
+  have hnear := hX.next_near
+  have hsent := hX.sent
+  have hle := hX.next_le
+  simp only [hres, hrto, hnd, hbuf, hint, List.nil_append] at hdone hnear hsent hle
+  obtain ⟨_, _, st, ss, cw, inc, hk⟩ := flush_frame k true now
+  have hsb : (flush k true now).k.snd_buf = (flX k true now).done := by rw [hk]
+  have hiv : (flush k true now).interval = (flX k true now).next := by rw [flush_eq]
+  refine ⟨flAd_prefix k now, by rw [hsb, hdone], ?_, ?_, by rw [hiv]; exact hle, ?_⟩
+  · intro s hs ha hx hd
+    have hne : cause now (resentOf k) (flAd k now).count s ≠ .none := by
+      rcases cause_due now (resentOf k) (flAd k now).count s hx hd with h | h | h <;> rw [h] <;>
+        exact fun c => by cases c
+    refine ⟨hne, fun hp => ?_⟩
+    rw [flush_panic] at hp
+    obtain ⟨pre, post, hw⟩ := hsent s hs ha hne ((grow_F5 k true now).noPanic hp)
+    obtain ⟨t, ht⟩ := (grow_F5 k true now).wire
+    exact ⟨pre, post ++ t, by rw [flush_wire, ht, hw]; simp⟩
+  · intro s' hs' ha' h0 h31
+    rw [hsb, hdone] at hs'
+    obtain ⟨s, hs, rfl⟩ := List.mem_map.mp hs'
+    rw [segAfter_acked] at ha'
+    by_cases hc : cause now (resentOf k) (flAd k now).count s = .none
+    · rw [segAfter_none _ _ _ _ _ _ _ _ (Or.inr hc)]
+      refine ⟨(cause_none _ _ _ _ hc).2, fun _ hr => ?_⟩
+      rw [segAfter_none _ _ _ _ _ _ _ _ (Or.inr hc)] at h0 h31
+      rw [hr]; exact (itimediff_add_self now s.rto h31).1
+    · have hr : (segAfter now (resentOf k) (wndUnused k) k.rcv_nxt (flAd k now).count k.rx_rto k.nodelay s).resendts =
+          now + (segAfter now (resentOf k) (wndUnused k) k.rcv_nxt (flAd k now).count k.rx_rto k.nodelay s).rto := by
+        rw [segAfter_sent _ _ _ _ _ _ _ _ ha' hc]
+        exact retimed_resendts _ _ _ _ _ hc
+      rw [hr]
+      have := itimediff_add_self now _ h31
+      exact ⟨by rw [this.2]; omega, fun _ _ => this.1⟩
+  · intro s' hs' ha' hd
+    rw [hsb, hdone] at hs'
+    obtain ⟨s, hs, rfl⟩ := List.mem_map.mp hs'
+    rw [segAfter_acked] at ha'
+    have h := hnear s hs ha' hd
+    rw [ofInt_itimediff, BitVec.le_def] at h
+    rw [hiv, ← itimediff_pos_toNat _ _ hd]
+    exact Int.ofNat_le.mpr h
+
+/-- a segment transmitted by a full flush has its timer exactly `rto` ahead (the part of 3 that
+identifies "transmitted by this flush" through `segAfter`) -/
+theorem C02_retx_armed_sent_timer (k : Kcp) (now : U32) (s : Seg) (hs : s ∈ (flAd k now).buf) (ha : s.acked = false)
+    (hc : cause now (resentOf k) (flAd k now).count s ≠ .none) :
+    (segAfter now (resentOf k) (wndUnused k) k.rcv_nxt (flAd k now).count k.rx_rto k.nodelay s) ∈ (flush k true now).k.snd_buf ∧
+    (segAfter now (resentOf k) (wndUnused k) k.rcv_nxt (flAd k now).count k.rx_rto k.nodelay s).resendts =
+      now + (segAfter now (resentOf k) (wndUnused k) k.rcv_nxt (flAd k now).count k.rx_rto k.nodelay s).rto := by
+  refine ⟨?_, ?_⟩
+  · rw [(C02_retx_armed k now).2.1]; exact List.mem_map.mpr ⟨s, hs, rfl⟩
+  · rw [segAfter_sent _ _ _ _ _ _ _ _ ha hc]; exact retimed_resendts _ _ _ _ _ hc
+
 end KcpVerif.Props
+
